@@ -2879,11 +2879,20 @@ class RedunClient:
                 )
             self.display(f"{repo_name}: {repo_path}", indent=2)
 
-    def get_record_ids(self, prefix_ids: Sequence[str]) -> list[str]:
+    def get_record_ids(
+        self, prefix_ids: Sequence[str], backend: Optional[RedunBackendDb] = None
+    ) -> list[str]:
         """
         Expand prefix record ids to full record ids.
+
+        Ids are looked up in `backend` if given, otherwise in the current repo.
         """
-        records = [self.infer_id(id, include_files=False) for id in prefix_ids]
+        if backend:
+            assert backend.session
+            session = backend.session
+            records = [infer_id(session, id, include_files=False) for id in prefix_ids]
+        else:
+            records = [self.infer_id(id, include_files=False) for id in prefix_ids]
         unknown_ids = [prefix for prefix, record in zip(prefix_ids, records) if record is None]
         if unknown_ids:
             raise RedunClientError(f"Unknown record ids: {' '.join(unknown_ids)}")
@@ -2924,7 +2933,8 @@ class RedunClient:
             raise RedunClientError(f"Cannot pull repo {args.push_repo} from itself")
         src_backend.load()
 
-        root_ids = self.get_record_ids(extra_args) if extra_args else None
+        # The records to pull live in the other repo, so that is where their ids are looked up.
+        root_ids = self.get_record_ids(extra_args, backend=src_backend) if extra_args else None
         num_records = self._sync_records(src_backend, dest_backend, root_ids)  # ty: ignore[invalid-argument-type]
         self.display(f"Pulled {num_records} new record(s) from repo '{args.pull_repo}'")
 
